@@ -365,9 +365,95 @@ var shapes = []interface{}{
 	nil,
 }
 
+// sharedStructures: Go structures may share what a document cannot - one *Branches value
+// used by two nodes, one *Node registered under two names, one *Branch in two lists.  The
+// machine must be the one its JSON rendering (where nothing is shared) compiles to.
+func sharedStructures(rec *fw.Rec) {
+	texts := []string{`"\"42\""`, `"\"?m\""`, `"\"true\""`, `"\"null\""`, `{"a":"?x"}`, `"\"hello\""`, `["a"]`, `42`}
+	for _, sharing := range []string{"branches", "node", "branch"} {
+		for _, syntax := range []string{"json", ""} {
+			mk := func() *core.Spec {
+				var bs []*core.Branch
+				for i, t := range texts {
+					var p interface{} = t
+					if syntax == "" {
+						json.Unmarshal([]byte(t), &p)
+					}
+					bs = append(bs, &core.Branch{Pattern: p, Target: fmt.Sprintf("t%d", i)})
+				}
+				s := &core.Spec{Name: "shared", PatternSyntax: syntax, Nodes: map[string]*core.Node{}}
+				for i := range texts {
+					s.Nodes[fmt.Sprintf("t%d", i)] = &core.Node{}
+				}
+				switch sharing {
+				case "branches":
+					shared := &core.Branches{Type: "message", Branches: bs}
+					s.Nodes["start"] = &core.Node{Branches: shared}
+					s.Nodes["again"] = &core.Node{Branches: shared}
+				case "node":
+					n := &core.Node{Branches: &core.Branches{Type: "message", Branches: bs}}
+					s.Nodes["start"] = n
+					s.Nodes["again"] = n
+				default:
+					s.Nodes["start"] = &core.Node{Branches: &core.Branches{Type: "message", Branches: bs}}
+					s.Nodes["again"] = &core.Node{Branches: &core.Branches{Type: "message", Branches: append([]*core.Branch{}, bs...)}}
+				}
+				return s
+			}
+			shared := mk()
+			js, err := json.Marshal(mk())
+			var plain core.Spec
+			if err == nil {
+				err = json.Unmarshal(js, &plain)
+			}
+			if err != nil {
+				rec.Inconclusive("shared structures: rendering: " + err.Error())
+				return
+			}
+			replay := map[string]interface{}{"sharing": sharing, "patternSyntax": syntax, "patterns": texts}
+			e1 := shared.Compile(context.Background(), nil, true)
+			e2 := plain.Compile(context.Background(), nil, true)
+			rec.Eval(2)
+			if (e1 == nil) != (e2 == nil) {
+				rec.Violation("C13:shared-go-structures:compile", fmt.Sprintf("the spec as Go structures that share a %s: compile error %v; its JSON rendering: %v", sharing, e1, e2), replay)
+				continue
+			}
+			if e1 != nil {
+				continue
+			}
+			pats := func(s *core.Spec) string {
+				var l []interface{}
+				for _, nm := range []string{"start", "again"} {
+					for _, b := range s.Nodes[nm].Branches.Branches {
+						l = append(l, b.Pattern)
+					}
+				}
+				return fw.Canon(l)
+			}
+			if pats(shared) != pats(&plain) {
+				rec.Violation("C13:shared-go-structures:patterns", fmt.Sprintf("the spec as Go structures that share a %s compiles to the patterns %s; its JSON rendering to %s", sharing, pats(shared), pats(&plain)), replay)
+				continue
+			}
+			same := true
+			for _, msg := range []interface{}{"42", 42.0, true, "true", "null", "hello", "x", "?m", map[string]interface{}{"a": 1.0}, []interface{}{"a"}} {
+				t1, ok1 := trace(rec, replay, shared, nil, []interface{}{msg})
+				t2, ok2 := trace(rec, replay, &plain, nil, []interface{}{msg})
+				if ok1 && ok2 && t1 != t2 {
+					rec.Violation("C13:shared-go-structures:behaviour", fmt.Sprintf("on %s the spec as Go structures that share a %s gives %s; its JSON rendering gives %s", fw.Short(msg), sharing, fw.Short(t1), fw.Short(t2)), replay)
+					same = false
+				}
+			}
+			if same {
+				rec.Bucket("go_structures_with_shared_parts_agree_with_their_rendering")
+			}
+		}
+	}
+}
+
 func Run(cfg fw.Config, rec *fw.Rec) {
-	rec.Rule = "each abstract spec (random node graph, guards, actions, all error settings, plus a start node whose message-branch patterns cover every JSON shape at the top level: map, array, bare string, bare variable, number, boolean, null, property variable) is rendered as Go structures, JSON, YAML via jsccast/yaml, and through sio's URL loader (YAML and JSON files) and inline loader, each with inline patterns and with JSON-text patterns under patternSyntax json, each compiled once / three times / compiled-serialised-reloaded-compiled (42 variants incl. Go structures whose inline patterns are typed Go containers such as map[string]string, []string, []int), and with every name the standard interpreter map offers for the ECMAScript interpreter ('', ecmascript, ecmascript-5.1, ecmascript-ext, ecmascript-5.1-ext, goja), compiled with that map, once and reloaded (12 more); all must compile and give identical traces on shared message sequences; unknown interpreter (also: a name only the standard map knows, compiled with the default interpreters; an unknown name with the standard map) / pattern syntax / branching type must fail at Compile; non-trivial = spec whose trace has >= 3 strides; distinct by spec"
-	rec.Required = []string{"variants_agree", "negative_unknown_interpreter", "negative_standard_only_name_with_default_interpreters", "negative_unknown_interpreter_with_standard_map", "negative_unknown_pattern_syntax", "negative_unknown_pattern_syntax_without_patterns", "spec_repaired_after_a_failed_compile_equals_clean", "negative_unknown_branching_type", "string_pattern_as_json_text", "traces_with_scalar_messages"}
+	sharedStructures(rec)
+	rec.Rule = "Go structures in which two nodes share one *Branches / one *Node has two names / one *Branch is in two lists (bare-string JSON-text patterns under patternSyntax json) must compile to what their JSON rendering compiles to; each abstract spec (random node graph, guards, actions, all error settings, plus a start node whose message-branch patterns cover every JSON shape at the top level: map, array, bare string, bare variable, number, boolean, null, property variable) is rendered as Go structures, JSON, YAML via jsccast/yaml, and through sio's URL loader (YAML and JSON files) and inline loader, each with inline patterns and with JSON-text patterns under patternSyntax json, each compiled once / three times / compiled-serialised-reloaded-compiled (42 variants incl. Go structures whose inline patterns are typed Go containers such as map[string]string, []string, []int), and with every name the standard interpreter map offers for the ECMAScript interpreter ('', ecmascript, ecmascript-5.1, ecmascript-ext, ecmascript-5.1-ext, goja), compiled with that map, once and reloaded (12 more); all must compile and give identical traces on shared message sequences; unknown interpreter (also: a name only the standard map knows, compiled with the default interpreters; an unknown name with the standard map) / pattern syntax / branching type must fail at Compile; non-trivial = spec whose trace has >= 3 strides; distinct by spec"
+	rec.Required = []string{"go_structures_with_shared_parts_agree_with_their_rendering", "variants_agree", "negative_unknown_interpreter", "negative_standard_only_name_with_default_interpreters", "negative_unknown_interpreter_with_standard_map", "negative_unknown_pattern_syntax", "negative_unknown_pattern_syntax_without_patterns", "spec_repaired_after_a_failed_compile_equals_clean", "negative_unknown_branching_type", "string_pattern_as_json_text", "traces_with_scalar_messages"}
 	rec.Assume = []string{"specs are deterministic", "the YAML rendering is block style with JSON flow scalars/collections for patterns"}
 	n := cfg.Pick(400, 20000)
 	fw.Parallel(cfg.Workers, n, func(w, i int) {
